@@ -21,7 +21,9 @@ RULE = ('source streams of few chunks (zeros, random bytes, clean images of the 
         'sources; plus genuine parser errors raised by crafted content (VHDX bad region signature / region count / '
         'metadata signature on >= 256 KiB streams, VMDK bad version and descriptor location) with and without '
         'injected faults; the exception type of a fault varied over 18 classes (struct.error, ImageFormatError, OSError, '
-        'plain Exception subclasses ...), raised in front of eat_chunk or from post_process inside it; faults inside '
+        'plain Exception subclasses ...) and its shape over 12 (no / empty / several / non-string / None / bytes '
+        'arguments, arguments or classes whose str()/repr() raise, a 300 kB message), with the module logger silent '
+        'or at DEBUG with a handler, raised in front of eat_chunk or from post_process inside it; faults inside '
         'the complete / format_match properties; and clean images of every format read with zero-length reads in mid-stream and further '
         'reads after EOF, with expected_format = that format / raw / none. Compared: length and adler32 of the bytes returned, number of chunks returned, how the '
         'stream ended, per-inspector feed log and errored marks (for the chunk on which the stream was cut off only '
@@ -53,7 +55,7 @@ def generate():
 
 
 def plan_cases(ctx):
-    """(label, data, sizes, allowed, expected, faults, iterator)"""
+    """(label, data, sizes, allowed, expected, faults, iterator, debug logging on)"""
     rng = ctx.rng
     quick = ctx.quick
     streams = G.c06_streams(rng, quick)
@@ -109,6 +111,20 @@ def plan_cases(ctx):
                      for _ in range(rng.randint(1, 4))})
         if len({(n, k) for n, k, _ in fl}) == len(fl):
             out.append((label, data, sizes, rng.choice([None, None] + G.C06_ALLOWED[1:]), e, fl, rng.random() < 0.5))
+    # the SHAPE of the exception object (no arguments, empty / several / non-string / None / bytes arguments,
+    # arguments or classes whose str() / repr() raise, very long message) x type x expected or not x the module
+    # logger silent or at DEBUG with a handler attached (log arguments are formatted lazily)
+    for label, data, sizes in typed:
+        nch = len(sizes)
+        for shape in G.EXC_SHAPES:
+            for tname in (rng.sample(G.EXC_TYPES, 4) if quick else G.EXC_TYPES):
+                for log in (False, True):
+                    name = rng.choice(G.ALLF)
+                    e = rng.choice([None, None, name, rng.choice(G.ALLF)])
+                    where = rng.choice(['eat', 'eat', 'post'])
+                    out.append((label, data, sizes, None, e,
+                                [(name, rng.randrange(nch), '%s:%s/%s' % (where, tname, shape))],
+                                rng.random() < 0.5, log))
     # faults inside the `complete` / `format_match` properties of inspectors other than the expected one: the
     # model's processLoop never evaluates them, so they must be invisible (qcow2's format_match is read by its
     # own region_complete inside eat_chunk, which makes it an eat_chunk fault: left to the search)
@@ -141,7 +157,8 @@ def plan_cases(ctx):
         for e, fl in (plans[:4] if quick else plans):
             out.append((label, data, sizes, None if quick else rng.choice([None, ['vhdx', 'raw', 'iso']]), e, fl,
                         rng.random() < 0.5))
-    return out
+    # last element: is the module logger at DEBUG with a handler attached? (a fifth of the older cases too)
+    return [c if len(c) == 8 else c + (rng.random() < 0.2,) for c in out]
 
 
 def show_fault(f):
@@ -149,44 +166,53 @@ def show_fault(f):
     return '%s@%d' % (n, k) + ('' if kind == 'eat:RuntimeError' else '[%s]' % kind)
 
 
-def case_of(label, data, sizes, allowed, expected, faults, iterator, must_complete=False):
+def case_of(label, data, sizes, allowed, expected, faults, iterator, must_complete=False, log=False):
     c = {'label': label, 'content': insp_impl.content_field(data), 'sizes': list(sizes), 'allowed': allowed,
          'expected': expected, 'faults': [list(f) for f in faults], 'iterator': bool(iterator)}
     if must_complete:
         c['must_complete'] = True
+    if log:
+        c['debug_logging'] = True
     return c
 
 
 def correspondence(ctx):
     cases = plan_cases(ctx)
-    lines = [G.fault_req(al, e, data, sizes, fl) for _, data, sizes, al, e, fl, _it in cases]
+    lines = [G.fault_req(al, e, data, sizes, fl) for _, data, sizes, al, e, fl, _it, _log in cases]
     replies = G.ask_par(ctx.driver, lines)
     out = []
-    for (label, data, sizes, al, e, fl, it), rep in zip(cases, replies):
+    for (label, data, sizes, al, e, fl, it, log), rep in zip(cases, replies):
         ctx.evaluations += 1
+        ctx.count('logger/' + ('debug+handler' if log else 'silent'))
         if all(len(f) == 2 for f in fl):
-            impl, info = insp_impl.run_fault(al, e, data, sizes, fl, iterator=it)
-        else:       # typed / post_process / property faults: the instrumented runner, rendered the same way
-            t = G.pipe_trace(al, e, data, sizes, fl, it)
+            try:
+                with G.debug_logging(log):
+                    impl, info = insp_impl.run_fault(al, e, data, sizes, fl, iterator=it)
+            except Exception as ex:
+                impl, info = 'ESCAPED:%s' % type(ex).__name__, {'end': 'escaped', 'errored': ()}
+        else:       # typed / shaped / post_process / property faults: the instrumented runner, rendered the same way
+            with G.debug_logging(log):
+                t = G.pipe_trace(al, e, data, sizes, fl, it)
             impl = G.render_trace(t)
             info = {'end': impl.split('end=')[1].split('\t')[0], 'errored': t['errored']}
             for f in fl:
                 ctx.count('fault-kind/' + f[2].split(':')[0])
                 if ':' in f[2]:
-                    ctx.count('fault-type/' + f[2].split(':')[1])
+                    ctx.count('fault-type/' + f[2].split(':')[1].split('/')[0])
+                    ctx.count('fault-shape/' + (f[2].split('/')[1] if '/' in f[2] else 'one'))
         ci, cm = G.canon_fault(impl, e), G.canon_fault(rep, e)
         ctx.count('corr/' + ('iterator' if it else 'file-like'))
         ctx.count('end/' + info['end'])
         ctx.count('faults/%d' % min(len(fl), 3))
         ctx.count('expected/' + ('none' if not e else 'given'))
         if info['errored'] or info['end'] != 'done':
-            ctx.nontrivial((G.digest(data), tuple(sizes), tuple(fl), e, tuple(al or ()), it))
+            ctx.nontrivial((G.digest(data), tuple(sizes), tuple(fl), e, tuple(al or ()), it, log))
         if ctx.evaluations % 331 == 1:
             ctx.sample({'stream': label, 'chunk_sizes': sizes, 'expected_format': e, 'allowed_formats': al,
                         'faults': [show_fault(f) for f in fl], 'source': 'iterator' if it else 'file-like',
                         'implementation': ci.replace('\t', ' | ')}, 8)
         if ci != cm:
-            out.append(Disagreement(case_of(label, data, sizes, al, e, fl, it), ci, cm))
+            out.append(Disagreement(case_of(label, data, sizes, al, e, fl, it, log=log), ci, cm))
     ctx.exhaustive = True
     return out
 
@@ -194,11 +220,12 @@ def correspondence(ctx):
 # --------------------------------------------------------------------------
 # failing-input search: the property on the implementation only
 
-def oracle(allowed, expected, data, sizes, faults, iterator, must_complete=False):
+def oracle(allowed, expected, data, sizes, faults, iterator, must_complete=False, log=False):
     """`must_complete`: the content matches the expected format and no fault is planned for that inspector,
     so the reader must get every byte and no exception"""
     F = G.fi()
-    t = G.pipe_trace(allowed, expected, data, sizes, faults, iterator)
+    with G.debug_logging(log):
+        t = G.pipe_trace(allowed, expected, data, sizes, faults, iterator)
     chunks, out, (end, exc), ev = t['chunks'], t['out'], t['end'], t['events']
     m = len(out)
     if t['fed_after_finish']:
@@ -286,10 +313,10 @@ def search(ctx, seeds, full=False):
     fails = []
     kinds = {}
 
-    def run(label, data, sizes, al, e, fl, it, mc=False):
+    def run(label, data, sizes, al, e, fl, it, mc=False, log=False):
         ctx.evaluations += 1
         fl = [tuple(f) for f in fl]
-        why = oracle(al, e, data, sizes, fl, it, mc)
+        why = oracle(al, e, data, sizes, fl, it, mc, log)
         if not why:
             return
         kind = ' '.join(w for w in why.split(' ') if not any(ch.isdigit() for ch in w))[:70]
@@ -298,20 +325,24 @@ def search(ctx, seeds, full=False):
             return
         # shrink: fewer faults, then no allowed_formats restriction
         def still(sub):
-            return oracle(al, e, data, sizes, sub, it, mc) is not None
+            return oracle(al, e, data, sizes, sub, it, mc, log) is not None
         small = fl
         if len(fl) > 1:
             small = common.shrink_list(fl, still, max_steps=40)
-        if fl and oracle(al, e, data, sizes, [], it, mc):
+        if fl and oracle(al, e, data, sizes, [], it, mc, log):
             small = []
-        fails.append(Failure(case_of(label, data, sizes, al, e, small, it, mc),
-                             {'kind': kind, 'what': '%s: %s' % (label, oracle(al, e, data, sizes, small, it, mc))}))
+        if log and oracle(al, e, data, sizes, small, it, mc, False):
+            log = False
+        fails.append(Failure(case_of(label, data, sizes, al, e, small, it, mc, log),
+                             {'kind': kind, 'what': '%s: %s%s' % (label, oracle(al, e, data, sizes, small, it, mc, log),
+                                                                  ' [logger at DEBUG with a handler]' if log else '')}))
 
     for s in seeds[:300]:
         run(s.get('label', 'seed'), G.decode_content(s['content']), s['sizes'], s.get('allowed'), s.get('expected'),
-            s.get('faults', []), s.get('iterator', False), s.get('must_complete', False))
+            s.get('faults', []), s.get('iterator', False), s.get('must_complete', False), s.get('debug_logging', False))
         run(s.get('label', 'seed'), G.decode_content(s['content']), s['sizes'], s.get('allowed'), s.get('expected'),
-            s.get('faults', []), not s.get('iterator', False), s.get('must_complete', False))
+            s.get('faults', []), not s.get('iterator', False), s.get('must_complete', False),
+            s.get('debug_logging', False))
     streams = G.c06_streams(rng, ctx.quick)
     exps = [None] + G.ALLF
     # matching content, zero-length reads in mid-stream and reads after EOF: every byte, no exception
@@ -333,6 +364,18 @@ def search(ctx, seeds, full=False):
                 k = rng.randrange(nch)
                 for e in {None, name, rng.choice(G.ALLF)}:
                     run(label, data, sizes, None, e, [(name, k, kind)], rng.random() < 0.5)
+        if len(fails) >= 6:
+            return fails[:6]
+    # every exception shape x a few types x expected none / that inspector / another x logger silent or at DEBUG
+    for label, data, sizes in (streams[:4] if ctx.quick and not full else streams):
+        nch = len(sizes)
+        for shape in G.EXC_SHAPES:
+            for tname in rng.sample(G.EXC_TYPES, 3 if ctx.quick else 8):
+                name = rng.choice(G.ALLF)
+                kind = '%s:%s/%s' % (rng.choice(['eat', 'eat', 'post']), tname, shape)
+                for e in (None, name, rng.choice(G.ALLF)):
+                    for log in (False, True):
+                        run(label, data, sizes, None, e, [(name, rng.randrange(nch), kind)], rng.random() < 0.5, False, log)
         if len(fails) >= 6:
             return fails[:6]
     # every single fault x expected on a few streams, both source kinds
@@ -357,7 +400,9 @@ def search(ctx, seeds, full=False):
         fl = sorted({(rng.choice(names), rng.randrange(nch)) for _ in range(rng.randint(0, 5))})
         if rng.random() < 0.5:
             fl = [(n_, k_, rng.choice(kinds_all)) for n_, k_ in fl]
-        run(label, data, sizes, al, e, fl, rng.random() < 0.5)
+            fl = [(n_, k_, kd + '/' + rng.choice(G.EXC_SHAPES)) if ':' in kd and rng.random() < 0.5 else (n_, k_, kd)
+                  for n_, k_, kd in fl]
+        run(label, data, sizes, al, e, fl, rng.random() < 0.5, False, rng.random() < 0.3)
         if len(fails) >= 6:
             break
     for label, data, sizes in G.c06_big_streams(rng, True)[:4 if (full or not ctx.quick) else 2]:
@@ -377,7 +422,11 @@ def replay(ctx, payload):
     al, e, sizes, it = case.get('allowed'), case.get('expected'), case['sizes'], case.get('iterator', False)
     print('stream %s: %d bytes in chunks %s; expected_format=%s allowed_formats=%s faults=%s source=%s'
           % (case.get('label'), len(data), sizes, e, al, [show_fault(f) for f in fl], 'iterator' if it else 'file-like'))
-    t = G.pipe_trace(al, e, data, sizes, fl, it)
+    log = case.get('debug_logging', False)
+    if log:
+        print('module logger at DEBUG with a StreamHandler attached')
+    with G.debug_logging(log):
+        t = G.pipe_trace(al, e, data, sizes, fl, it)
     print('implementation:', G.canon_fault(G.render_trace(t), e).replace('\t', ' | '))
     if t['prop_reads']:
         print('                faulty properties read:', sorted(set((n, p_, k) for n, p_, k, _ in t['prop_reads']))[:8])
@@ -386,7 +435,7 @@ def replay(ctx, payload):
         print('model         :', G.canon_fault(model, e).replace('\t', ' | '))
     except ValueError as ve:
         print('model         : (%s)' % ve)
-    why = oracle(al, e, data, sizes, fl, it, case.get('must_complete', False))
+    why = oracle(al, e, data, sizes, fl, it, case.get('must_complete', False), log)
     print('property oracle on the implementation:', why)
     return 1 if why else 0
 
